@@ -143,7 +143,9 @@ EXPLANATION = ("Static check inventory: for every offered verifier (functions re
                "proof from a stream, plus the listed stand-alone verifiers) the accepting exits are shown, by a must-fact dataflow over the "
                "CFG with term normalisation, to be guarded by every check in a frozen, reviewed inventory (membership tests, range tests, "
                "final equations abstracted to the set of inputs they relate, verdicts of sub-verifiers, per-round checks of cut-and-choose "
-               "loops, under each value of the bool parameters); comparison operators look at every member; no verdict of a "
+               "loops, under each value of the bool parameters); in the interactive verifiers every random challenge is sent after the "
+               "commitment it challenges (dominance, loops taken as units), is drawn in the round it is sent in, and the number of rounds "
+               "is not a value from the peer; comparison operators look at every member; no verdict of a "
                "Check*/Verify* function is dropped anywhere in the library. Decides that no listed check was removed, weakened or bypassed "
                "on some path; does not decide the 2^-kappa bound nor the algebra of the equations.")
 ASSUMPTIONS = ["reference inventory (sa/rules/inventory_ref.json) was confirmed by reading the verifiers on the repaired tree",
